@@ -10,6 +10,7 @@ import (
 	"sort"
 	"strconv"
 	"strings"
+	"time"
 
 	"github.com/GuanceCloud/platypus/pkg/engine"
 	plruntime "github.com/GuanceCloud/platypus/pkg/engine/runtime"
@@ -26,6 +27,7 @@ type histOp struct {
 	progSet
 	Kind   string `json:"kind"`
 	FireAt int    `json:"fire_at"`
+	PtTime string `json:"pt_time"` // "zero": the input point carries the zero time
 }
 
 func loadOps(path string) ([]*histOp, error) {
@@ -95,7 +97,11 @@ func runLoaded(o *histOp, l loadedOp, obs *runObs) string {
 		tags[k] = v
 	}
 	pt := input.GetPoint()
-	input.InitPt(pt, o.Pt.Meas, tags, f, fixedTime)
+	tn := fixedTime
+	if o.PtTime == "zero" {
+		tn = time.Time{}
+	}
+	input.InitPt(pt, o.Pt.Meas, tags, f, tn)
 	e := l.v1.Run(pt, obs)
 	fmt.Fprintf(&b, "run-error: %v\nlog: %v\nmeas: %q time: %d drop: %v\n", errStr(e), showLog(obs.log), pt.Measurement, pt.Time.UnixNano(), pt.Drop)
 	keys := []string{}
